@@ -331,6 +331,20 @@ def run(env):
             rb = env.drive("matrix", mtext, build=b)
             env.require_complete(rb, "matrix/" + b)
             env.pmap(monitor, rb.sessions, workload="impl-sender")
+    if not env.quick():
+        # info / psk / psk_id / exporter context / ikm of 2^32+5 bytes against the reference
+        from lib import giant
+
+        def judge(env, sess, op, big):
+            e = giant.expected(sess, op, big)
+            bad = [k for k, v in e.items() if k in op.ret and op.ret[k] != cl.outenc(v)]
+            if "r_exp" in op.ret and op.ret["r_exp"] != cl.outenc(e["s_exp"]):
+                bad.append("r_exp")
+            if bad:
+                env.violation("C02:giant:%s:%s" % (op.args["which"], bad[0]), "with a %s of 2^32+5 bytes %s differ(s) from RFC 9180: got %s" % (
+                    op.args["which"], bad, {k: op.ret.get(k, "")[:32] for k in bad}), case_text=sess.case_text(op.id), workload="giant-strings")
+        giant.run(env, "C02", ["info", "psk", "pskid", "exctx", "ikm"], [(0x0020, 1, 1)], judge)
+        giant.run(env, "C02", ["info"], [(0x0012, 3, 3)], judge)
     text = long_sessions(env, env.pick(300, 70000))
     res = env.drive("long", text)
     env.require_complete(res, "long")
